@@ -29,6 +29,7 @@ RULE += '; a disposable may yield exactly one state object that is falsy'
 RULE += '; body outcomes include a falsy exception instance; disposables may fail with a non-Exception BaseException'
 RULE += '; disposables may compare equal to each other'
 RULE += '; a disposable may raise its own CancelledError from its exit'
+RULE += "; disposables that absorb an interruption; entering that ends with the disposable's own CancelledError"
 LEVEL_TEXT = (
     "Fault enumeration: the disposable behaviour space is enumerated completely for <=2 disposables (thorough) and "
     "sampled for 3-4; for cancelled bodies every loop iteration is a crash point. The oracle is the doubles' call ledger: "
@@ -312,8 +313,10 @@ def _disp_strategy():
         st.builds(lambda t: {"b": "suspend_ok", "t": t}, times),
         st.builds(lambda t: {"b": "suspend_raise", "t": t}, times),
         st.just({"b": "raise_base"}),
+        st.builds(lambda t: {"b": "suspend_ok", "t": t, "absorb": True}, times),
     )
-    mostly_ok = st.one_of(st.just({"b": "ok"}), st.just({"b": "ok"}), beh)
+    # entering that ends with the disposable's OWN CancelledError (nobody cancelled the scope's task) is a failed enter
+    mostly_ok = st.one_of(st.just({"b": "ok"}), st.just({"b": "ok"}), beh, beh, st.just({"b": "raise_cancelled"}), st.just({"b": "suspend_raise_cancelled", "t": 0.25}))
     exit_beh = st.one_of(beh, beh, beh, st.just({"b": "ok", "ret": True}), st.just({"b": "raise_cancelled"}))
     return st.builds(
         lambda e, y, x, a, tw: {"enter": e, "yields": y, "exit": x, "as": a, "twin": tw},
